@@ -189,8 +189,8 @@ fn gen_mutation_m(base: &ReqSpec, cfg: &RunCfg, out: &mut Outcome) -> (Vec<u8>, 
 }
 
 fn gen_mutation_g(base: &ReqSpec, cfg: &RunCfg, out: &mut Outcome) -> (Vec<u8>, After, &'static str, bool) {
-    let kinds: [&'static str; 16] = [
-        "http10", "colon-nospace", "ows-around-value", "absolute-form", "chunked-request", "lowercase-method", "non-utf8-header-value", "nul-in-header-value", "raw-high-byte-in-target",
+    let kinds: [&'static str; 17] = [
+        "http10", "colon-nospace", "ows-around-value", "absolute-form", "chunked-request", "lowercase-method", "non-utf8-header-value", "nul-in-header-value", "raw-high-byte-in-target", "raw-lead-byte-then-escaped-continuation",
         "pct-non-utf8-path", "pct-non-utf8-query", "head-over-1024", "asterisk-form", "empty-header-value", "non-utf8-connection", "unknown-method",
     ];
     let mut kind = t::pick(&kinds);
@@ -267,6 +267,19 @@ fn gen_mutation_g(base: &ReqSpec, cfg: &RunCfg, out: &mut Outcome) -> (Vec<u8>, 
             let mut v = b.to_bytes();
             let sp = v.iter().position(|x| *x == b' ').unwrap();
             v.insert(sp + 2, t::pick(&[0xffu8, 0xe9, 0x80]));
+            v
+        }
+        "raw-lead-byte-then-escaped-continuation" => {
+            // a multi-byte character spelled half raw, half escaped: its decoded form is UTF-8, its raw form is not.
+            // Whatever the server answers, no accessor of the request object may panic on it (class G)
+            let mut v = b.to_bytes();
+            let sp = v.iter().position(|x| *x == b' ').unwrap();
+            let (lead, rest): (u8, &str) = t::pick(&[(0xe4u8, "%B8%80"), (0xc3, "%A9"), (0xf0, "%9F%98%80")]);
+            let mut ins = vec![b'/', lead];
+            ins.extend_from_slice(rest.as_bytes());
+            // in front of the path: "/<raw lead><escaped continuation>/..."
+            let at = sp + 1;
+            v.splice(at..at, ins);
             v
         }
         "pct-non-utf8-path" => {
